@@ -24,7 +24,7 @@ Proof.
     apply in_map. apply IH; [cbn in Hl; lia|]. intros d Hd. apply Hc. now right.
 Qed.
 
-(* & ; < > " ' l t g a m p CR *)
+(* amp semicolon lt gt quot apos l t g a m p CR *)
 Definition alphabet_text : list N := [38; 59; 60; 62; 34; 39; 108; 116; 103; 97; 109; 112; 13].
 
 Definition text_survives (s : str) : bool :=
@@ -43,8 +43,8 @@ Proof.
   apply eqb_prop. apply H. now apply in_strings_upto.
 Qed.
 
-(* p q : & ; l t < TAB LF CR " - with p bound to urn:a which the normaliser calls ns0 *)
-Definition alphabet_attr : list N := [112; 113; 58; 38; 59; 108; 116; 60; 9; 10; 13; 34].
+(* p colon amp semicolon l t lt TAB LF CR quot, with p bound to urn:a which the normaliser calls ns0 *)
+Definition alphabet_attr : list N := [112; 58; 38; 59; 108; 116; 60; 9; 10; 13; 34].
 Definition sweep_scope : list (str * str) := [([112], [117; 114; 110; 58; 97])].
 Definition sweep_pi : list (str * str) := [([117; 114; 110; 58; 97], [110; 115; 48])].
 
